@@ -1,0 +1,6 @@
+//go:build !verif
+
+package prunner
+
+// verifAccess is a no-op unless built with the "verif" tag (see verif_hooks.go).
+func (r *PipelineRunner) verifAccess(site string, mutates bool) {}
